@@ -35,7 +35,8 @@ LABELS = ["find_turns", "4pt.cycles", "4pt.residual", "3pt.multiset", "3pt.resid
 
 
 def bounds(tier):
-    return {"signal_length": "2..%d" % (6 if tier == "quick" else 9), "detectors": list(C.DETECTORS)}
+    return {"signal_length": "2..%d" % (6 if tier == "quick" else 9), "detectors": list(C.DETECTORS),
+            "fed_in_two_pieces": "3..%d samples, every border" % (6 if tier == "quick" else 7)}
 
 
 prepare = C.prepare
@@ -50,6 +51,13 @@ def cases(tier):
             if m >= 7:
                 c["_split"] = 2 * m - 6      # decision depth at which the case is cut into parallel work items
             out.append(c)
+    for det in C.DETECTORS:
+        for m in range(3, (6 if tier == "quick" else 7) + 1):
+            for cut in range(1, m):
+                c = {"det": det, "m": m, "cut": cut, "_weight": 5 ** m}
+                if m >= 7:
+                    c["_split"] = 2 * m - 6
+                out.append(c)
     return out
 
 
@@ -121,10 +129,16 @@ def run(ctx, case):
     ctx.claim(eq_struct(list(vals), [xs[i] for i in tp[1:-1]]), "find_turns")
 
     d = C.make(det)
-    d.process(arr)
+    cut = case.get("cut")
+    if cut:
+        # the same statement when the signal arrives in two pieces (chunk independence itself is C01's subject)
+        d.process(arr[:cut])
+        d.process(arr[cut:])
+    else:
+        d.process(arr)
     o = C.observe(d)
     ncyc = len(o["values_from"])
-    ctx.signature((det, m, o["index_from"], o["index_to"], o["residual_index"]), trivial=(ncyc == 0))
+    ctx.signature((det, m, cut, o["index_from"], o["index_to"], o["residual_index"]), trivial=(ncyc == 0))
 
     if det in ("fourpoint", "threepoint"):
         cyc, res = O.four_point([(i, xs[i]) for i in tp])
